@@ -80,6 +80,7 @@ def consts(cfg, which, tracefile=None):
     d["Renom"] = "TRUE" if cfg["renom"] else "FALSE"
     d["NomBase"] = str(cfg.get("nomBase", 0))
     d["NomStep"] = str(cfg.get("nomStep", 1))
+    d["ForgeConflict"] = "TRUE" if cfg.get("forgeConflict") else "FALSE"
     d["Miss"] = "{" + ", ".join(q(x) for x in cfg.get("miss", [])) + "}"
     d["Lite"] = "[A |-> %s, B |-> %s]" % tuple("TRUE" if cfg["lite"][a] else "FALSE" for a in "AB")
     d["RFilter"] = "[A |-> {%s}, B |-> {%s}]" % tuple(", ".join(map(q, cfg.get("rfilter", {}).get(a, []))) for a in "AB")
